@@ -98,6 +98,8 @@ def affine(t, nv=None, expand=True, _depth=0):
         return affine(t[1], nv, expand, _depth)
     if t[0] == "const" and isinstance(t[1], int) and not isinstance(t[1], bool):
         return ({}, t[1])
+    if t[0] == "call" and t[1].rsplit("::", 1)[-1] in ("into", "from") and len(t[2]) == 1 and ("convert::Into" in t[1] or "convert::From" in t[1]):
+        return affine(t[2][0], nv, expand, _depth)
     if t[0] == "field" and t[3] == 0 and t[1][0] == "bin" and t[1][1].endswith("WithOverflow"):
         return affine(("bin", t[1][1].replace("WithOverflow", ""), t[1][2], t[1][3]), nv, expand, _depth)
     if t[0] == "bin":
